@@ -9,7 +9,7 @@ use crate::{BinaryDeserializer, BinaryInput, DeserializationContext, Error, Resu
 pub struct AdtDeserializer<'a, 'b, 'c> {
     metadata: &'a AdtMetadata,
     context: &'b mut DeserializationContext<'c>,
-    last_index_per_chunk: Vec<i8>,
+    last_index_per_chunk: Vec<i16>,
     read_constructor_idx: Option<u32>,
 
     stored_version: u8,
@@ -28,7 +28,7 @@ impl<'a, 'b, 'c> AdtDeserializer<'a, 'b, 'c> {
         Ok(Self {
             metadata,
             context,
-            last_index_per_chunk: vec![-1i8; metadata.version as usize + 1],
+            last_index_per_chunk: vec![-1i16; metadata.version as usize + 1],
             read_constructor_idx: None,
             stored_version: 0,
             made_optional_at: BTreeMap::new(),
@@ -86,7 +86,7 @@ impl<'a, 'b, 'c> AdtDeserializer<'a, 'b, 'c> {
         Ok(Self {
             metadata,
             context,
-            last_index_per_chunk: vec![-1i8; metadata.version as usize + 1],
+            last_index_per_chunk: vec![-1i16; metadata.version as usize + 1],
             read_constructor_idx: None,
             stored_version,
             made_optional_at,
@@ -244,7 +244,8 @@ impl<'a, 'b, 'c> AdtDeserializer<'a, 'b, 'c> {
     fn record_field_index(&mut self, chunk: u8) -> FieldPosition {
         let last_index = &mut self.last_index_per_chunk[chunk as usize];
         let new_index = *last_index + 1;
-        let fp = FieldPosition::new(chunk, new_index as u8);
+        // positions beyond 255 cannot occur in a header; keep them from wrapping onto small ones
+        let fp = FieldPosition::new(chunk, new_index.min(u8::MAX as i16) as u8);
         *last_index = new_index;
         fp
     }
